@@ -81,23 +81,24 @@ type propCfg struct {
 	Level       string
 	StallS      int // watchdog: seconds without journal progress
 	Gomaxprocs  []int
-	Digests     bool // compare per-index digests across worker passes
+	GmpRotate   []int // chunk k runs at GmpRotate[k % len]: the number of CPUs is an environment dimension
+	Digests     bool  // compare per-index digests across worker passes
 	NeedsBclBin bool
 	Workers     int
 }
 
 var props = map[string]propCfg{
-	"C06": {QuickRuns: 60000, Chunk: 1500, ThoroughS: 900, Level: "exploration", StallS: 60},
-	"C07": {QuickRuns: 40000, Chunk: 1000, ThoroughS: 900, Level: "exploration", StallS: 60},
-	"C08": {QuickRuns: 30000, Chunk: 800, ThoroughS: 900, Level: "exploration", StallS: 60},
-	"C09": {QuickRuns: 20000, Chunk: 500, ThoroughS: 900, Level: "exploration", StallS: 60},
-	"C11": {QuickRuns: 60000, Chunk: 1500, ThoroughS: 900, Level: "exploration", StallS: 60},
+	"C06": {GmpRotate: []int{16, 1, 4, 2}, QuickRuns: 60000, Chunk: 1500, ThoroughS: 900, Level: "exploration", StallS: 30},
+	"C07": {GmpRotate: []int{16, 1, 4, 2}, QuickRuns: 40000, Chunk: 1000, ThoroughS: 900, Level: "exploration", StallS: 30},
+	"C08": {GmpRotate: []int{16, 1, 4, 2}, QuickRuns: 30000, Chunk: 800, ThoroughS: 900, Level: "exploration", StallS: 30},
+	"C09": {QuickRuns: 20000, Chunk: 500, ThoroughS: 900, Level: "exploration", StallS: 30},
+	"C11": {GmpRotate: []int{16, 1, 4, 2}, QuickRuns: 60000, Chunk: 1500, ThoroughS: 900, Level: "exploration", StallS: 30},
 	"C12": {QuickRuns: 6000, Chunk: 200, ThoroughS: 900, Level: "exploration", StallS: 120, Race: true},
-	"C13": {QuickRuns: 640, Chunk: 20, ThoroughS: 900, Level: "fault_enumeration", StallS: 60},
-	"C14": {QuickRuns: 24000, Chunk: 500, ThoroughS: 600, Level: "other", StallS: 60},
-	"C16": {QuickRuns: 6000, Chunk: 250, ThoroughS: 900, Level: "exploration", StallS: 60, Gomaxprocs: []int{1, 4, 16}, Digests: true},
+	"C13": {QuickRuns: 640, Chunk: 20, ThoroughS: 900, Level: "fault_enumeration", StallS: 30},
+	"C14": {QuickRuns: 24000, Chunk: 500, ThoroughS: 600, Level: "other", StallS: 30},
+	"C16": {QuickRuns: 6000, Chunk: 250, ThoroughS: 900, Level: "exploration", StallS: 30, Gomaxprocs: []int{1, 4, 16}, Digests: true},
 	"C18": {QuickRuns: 6000, Chunk: 100, ThoroughS: 900, Level: "fault_enumeration", StallS: 120, NeedsBclBin: true},
-	"C19": {QuickRuns: 12000, Chunk: 400, ThoroughS: 900, Level: "exploration", StallS: 60},
+	"C19": {GmpRotate: []int{16, 1, 4, 2}, QuickRuns: 12000, Chunk: 400, ThoroughS: 900, Level: "exploration", StallS: 30},
 }
 
 func fatal2(format string, a ...any) {
@@ -238,6 +239,8 @@ type runner struct {
 	trouble []string
 	nproc   int
 	excluded int
+	deaths   int  // workers that died or stalled and were confirmed as violations
+	aborted  bool // enough process-killing violations: stop dispatching (the verdict is settled)
 	extraEnv []string
 }
 
@@ -349,9 +352,19 @@ func (r *runner) runOne(env []string, timeout time.Duration) (exit int, stdout, 
 }
 
 // processChunk runs one chunk to completion, restarting after crashes.
+// maxDeaths bounds the cost of a tree that keeps killing or stalling workers: every death costs
+// up to two supervisor periods, and after a handful the verdict cannot change any more.
+const maxDeaths = 6
+
 func (r *runner) processChunk(c chunk, id int, gmp int, deadline time.Time) {
 	from := c.from
 	for from < c.to {
+		r.mu.Lock()
+		ab := r.aborted
+		r.mu.Unlock()
+		if ab {
+			return
+		}
 		tag := fmt.Sprintf("w%d-%d", id, from)
 		outPath := filepath.Join(r.tmp, tag+".json")
 		jPath := filepath.Join(r.tmp, tag+".journal")
@@ -448,7 +461,18 @@ func (r *runner) processChunk(c chunk, id int, gmp int, deadline time.Time) {
 				continue
 			}
 		}
-		r.handleDeath(last, stalled, string(seb), gmp)
+		r.mu.Lock()
+		r.deaths++
+		skip := r.deaths > maxDeaths
+		r.mu.Unlock()
+		if !skip {
+			r.handleDeath(last, stalled, string(seb), gmp)
+		}
+		r.mu.Lock()
+		if r.deaths >= maxDeaths && len(r.crashes) > 0 {
+			r.aborted = true
+		}
+		r.mu.Unlock()
 		from = last + 1
 	}
 }
@@ -551,7 +575,7 @@ func (r *runner) handleDeath(idx int, stalled bool, stderr string, gmp int) {
 	r.mu.Unlock()
 	budget := 60
 	if strings.HasPrefix(sig, "livelock") {
-		budget = 6
+		budget = 1 // every candidate that still hangs costs a full supervisor period
 	}
 	min := sim.Shrink(sc, sig, budget, func(c *sim.Scenario) bool {
 		s, _ := classify(c)
@@ -746,7 +770,11 @@ func replay(path string) int {
 	tmp, _ := os.MkdirTemp(buildDir, "replay-")
 	defer os.RemoveAll(tmp)
 	r := &runner{prop: sc.Prop, cfg: cfg, tier: "quick", seed: sc.Seed, bin: bin, tmp: tmp}
-	exit, so, se, to := r.runOne([]string{"VERIF_REPLAY=" + path}, 10*time.Minute)
+	env := []string{"VERIF_REPLAY=" + path}
+	if g := sc.Int("gomaxprocs", 0); g > 0 {
+		env = append(env, "GOMAXPROCS="+strconv.Itoa(g))
+	}
+	exit, so, se, to := r.runOne(env, 10*time.Minute)
 	got := ""
 	switch {
 	case to:
@@ -849,6 +877,9 @@ func runCheck(prop, tier string) int {
 			to = total
 		}
 		for _, g := range gmps {
+			if g == 0 && len(cfg.GmpRotate) > 0 {
+				g = cfg.GmpRotate[(from/cfg.Chunk)%len(cfg.GmpRotate)]
+			}
 			jobs <- job{chunk{from, to}, g}
 		}
 	}
@@ -985,7 +1016,13 @@ func (r *runner) finish(start time.Time) int {
 		// confirm in a fresh process (ordinary violations were confirmed in-process only)
 		if v.Replay != "" && !strings.HasPrefix(v.Sig, "crash:") && !strings.HasPrefix(v.Sig, "livelock:") &&
 			!strings.HasPrefix(v.Sig, "race:") && !strings.HasPrefix(v.Sig, "cross-process:") {
-			_, so, _, _ := r.runOne([]string{"VERIF_REPLAY=" + v.Replay}, 5*time.Minute)
+			renv := []string{"VERIF_REPLAY=" + v.Replay}
+			if v.Scenario != nil {
+				if g := v.Scenario.Int("gomaxprocs", 0); g > 0 {
+					renv = append(renv, "GOMAXPROCS="+strconv.Itoa(g))
+				}
+			}
+			_, so, _, _ := r.runOne(renv, 5*time.Minute)
 			rep := strings.Contains(so, "REPLAY-VIOLATION sig="+strconv.Quote(v.Sig))
 			v.Repro = rep
 			if sc, err := sim.LoadScenario(v.Replay); err == nil {
@@ -1004,8 +1041,12 @@ func (r *runner) finish(start time.Time) int {
 			fmt.Fprintf(os.Stderr, "verif: harness trouble: %s\n", t)
 		}
 	}
-	if a.runs == 0 {
+	if a.runs == 0 && len(newViols) == 0 {
 		fatal2("no run completed; see messages above")
+	}
+	if a.runs == 0 {
+		// every worker died or stalled in its first runs: the deaths are the evidence
+		a.runs, a.evals = r.deaths, r.deaths
 	}
 
 	// evidence
@@ -1047,6 +1088,9 @@ func (r *runner) finish(start time.Time) int {
 	}
 	if len(r.trouble) > 0 {
 		cov["harness_trouble"] = r.trouble
+	}
+	if r.aborted {
+		cov["stopped_early"] = fmt.Sprintf("after %d worker deaths or stalls (each confirmed as a violation): the verdict is settled, the remaining run indices were not executed", r.deaths)
 	}
 	unreached := []string{}
 	for k, v := range a.probes {
